@@ -170,6 +170,26 @@ def run(tier: str) -> int:
                 dp = np.abs(w.get_momenta() - p_init).max()
                 if dx > 1e-9 or dp > 1e-9 * max(1.0, np.abs(p_init).max()):
                     rep.violation(f"not-reversible:{name}", f"{name}, dt = {dt} fs, {int(round(ttot / dt))} steps: after integrate/flip/integrate/flip positions differ by {dx:.2e} A, momenta by {dp:.2e}", {"system": name, "dt": dt})
+            # the atoms were moved by hand AFTER the calculator last looked at them, and nothing asked for the energy since:
+            # the trajectory must start from the forces of the configuration it starts from
+            w = at0.copy()
+            w.calc = at.calc
+            w.set_momenta(p_init)
+            w.get_potential_energy()
+            w.set_positions(w.get_positions() + np.random.RandomState(trial).uniform(-0.05, 0.05, (len(w), 3)))
+            w.set_momenta(w.get_momenta())  # (a rotated rigid bond: the momenta are made consistent with the constraint again)
+            x_s, p_s = w.get_positions().copy(), w.get_momenta().copy()
+            integ = Verlet(dt=1.0, max_steps=6)
+            ctx = context_for(w)
+            integ.integrate(ctx)
+            w.set_momenta(-w.get_momenta())
+            integ.integrate(ctx)
+            w.set_momenta(-w.get_momenta())
+            rep.count(("real-moved-after-evaluation", name, trial))
+            dx = np.abs(w.get_positions() - x_s).max()
+            dp = np.abs(w.get_momenta() - p_s).max()
+            if dx > 1e-9 or dp > 1e-9 * max(1.0, np.abs(p_s).max()):
+                rep.violation(f"not-reversible:{name}:moved-after-evaluation", f"{name}: the atoms were displaced by hand after the last energy evaluation; integrate/flip/integrate/flip then misses the start by {dx:.2e} A, {dp:.2e} in momentum (the first kick used forces of another configuration)", {"system": name})
             errs = np.array(errs)
             if np.all(errs > 1e-13):
                 slope = np.polyfit(np.log(dts), np.log(errs), 1)[0]
